@@ -1,5 +1,7 @@
 import SlimProps.C03
 import SlimProofs.IterMain
+import SlimProofs.IterScan
+import SlimProofs.LeafCount
 /-
   SlimProps.C04Iter — scans on Complete tries (the positive half of C04; the refusal clause and
   `C04_exhausted_stable` are in SlimProps.C04).
@@ -17,6 +19,13 @@ import SlimProofs.IterMain
   (`IterStack.expect`).  Key reassembly (b) is part of it: the yielded key bytes are the entry's key
   (`IterStack.descend_spec`: buffer invariant `BufAgree`, `appendLabel_spec`,
   `appendInnerPrefix_spec`, `appendLeafPrefix_spec`; no `reslice beyond len`).
+
+  Stage (d): `C04_scanFrom` — the callback sequence of `ScanFrom` is `Spec.scanFrom R start incl`
+  (as `C04.pair`: key bytes and value), cut by `takeWhile` of the caller's bound test and
+  truncated after the `stopAfter`-th item (`IterScan.truncate`; `none`/`some 0`: the callback never
+  returns false); the fuel `nodeCnt + 2` of the model suffices (at most one item per leaf:
+  `build_leavesBefore`).  `C04_scanFromTo` — with the end bound and both end inclusivities the
+  sequence is `Spec.scanFromTo R start incl stop inclEnd`, truncated the same way.
 -/
 
 open IterLemmas Subtree SearchDescent Exact Scan
@@ -114,6 +123,90 @@ theorem C04_iter (keys : List Bytes) (vals : Option (List Bytes)) (opt : Opt) (t
     intro i _
     exact (C04.item_entryAt keys vals keep hv wv i).symm
 
+/-! ### (d): `ScanFrom`, `ScanFromTo` -/
+
+namespace C04
+
+/-- what the callback receives for a retained entry -/
+def pair (R : List Entry) (wv : Bool) (e : Entry) : Bytes × Option Bytes :=
+  (e.1, (item R wv e).2)
+
+theorem leavesBefore_le (nodes : Array Node) (j : Nat) : leavesBefore nodes j ≤ j := by
+  unfold leavesBefore
+  calc _ ≤ (nodes.toList.take j).length := List.length_filter_le _ _
+    _ ≤ j := by rw [List.length_take]; exact Nat.min_le_left _ _
+
+/-- a trie has at most as many retained entries as nodes -/
+theorem retained_le_nodes (keys : List Bytes) (vals : Option (List Bytes)) (opt : Opt) (t : Trie1)
+    (hb : build keys vals opt = .ok t) :
+    (retained keys vals opt.dedup).length ≤ t.nodes.size := by
+  by_cases hne : keys = []
+  · subst hne; rw [C03.retained_nil]; exact Nat.zero_le _
+  · rw [← build_leavesBefore keys vals opt t hb hne]
+    exact leavesBefore_le _ _
+
+theorem stream (keys : List Bytes) (vals : Option (List Bytes)) (opt : Opt) (t : Trie1)
+    (hb : build keys vals opt = .ok t) (hc : opt.complete = true)
+    (start : Bytes) (incl wv : Bool) :
+    ∃ s, newIterFrom t.view start incl = .ok s ∧
+      IterScan.Stream t.view wv s
+        ((Spec.scanFrom (retained keys vals opt.dedup) start incl).map
+          (pair (retained keys vals opt.dedup) wv)) := by
+  obtain ⟨s, hs, htake⟩ := C04_iter keys vals opt t hb hc start incl wv
+  refine ⟨s, hs, ?_⟩
+  intro k
+  rw [htake k, List.map_map]
+  rfl
+
+theorem bound_eq (stop : Bytes) (inclEnd : Bool) (k : Bytes) :
+    (match cmpBytes k stop with
+      | .lt => true
+      | .eq => inclEnd
+      | .gt => false) = (if inclEnd then bytesLe k stop else bytesLt k stop) := by
+  unfold bytesLe bytesLt
+  cases cmpBytes k stop <;> cases inclEnd <;> rfl
+
+end C04
+
+/-- **C04 (ScanFrom).**  On a Complete trie the items passed to the callback of `ScanFrom` are the
+    entries of `Spec.scanFrom R start incl`, in order, as long as the wrapper's bound test `keepFn`
+    holds, up to and including the `stopAfter`-th item. -/
+theorem C04_scanFrom (keys : List Bytes) (vals : Option (List Bytes)) (opt : Opt) (t : Trie1)
+    (hb : build keys vals opt = .ok t) (hc : opt.complete = true)
+    (start : Bytes) (incl wv : Bool) (keepFn : Bytes → Bool) (stopAfter : Option Nat) :
+    scanFrom t.view start incl wv keepFn stopAfter =
+      .ok (IterScan.truncate stopAfter
+        (((Spec.scanFrom (retained keys vals opt.dedup) start incl).map
+          (C04.pair (retained keys vals opt.dedup) wv)).takeWhile (fun y => keepFn y.1))) := by
+  obtain ⟨s, hs, hstream⟩ := C04.stream keys vals opt t hb hc start incl wv
+  unfold scanFrom
+  rw [hs]
+  show scanFrom.go t.view wv keepFn stopAfter (t.view.nodeCnt + 2) s 0 = _
+  rw [IterScan.go_spec t.view wv keepFn stopAfter _ _ s 0 hstream, IterScan.goSpec_eq]
+  rw [List.length_map]
+  have h1 : (Spec.scanFrom (retained keys vals opt.dedup) start incl).length
+      ≤ (retained keys vals opt.dedup).length := List.length_filter_le _ _
+  have h2 := C04.retained_le_nodes keys vals opt t hb
+  show _ < t.nodes.size + 2
+  omega
+
+/-- **C04 (ScanFromTo).**  With an end bound the callback sequence is
+    `Spec.scanFromTo R start incl stop inclEnd`, up to and including the `stopAfter`-th item. -/
+theorem C04_scanFromTo (keys : List Bytes) (vals : Option (List Bytes)) (opt : Opt) (t : Trie1)
+    (hb : build keys vals opt = .ok t) (hc : opt.complete = true)
+    (start : Bytes) (incl : Bool) (stop : Bytes) (inclEnd wv : Bool) (stopAfter : Option Nat) :
+    scanFromTo t.view start incl stop inclEnd wv stopAfter =
+      .ok (IterScan.truncate stopAfter
+        ((Spec.scanFromTo (retained keys vals opt.dedup) start incl stop inclEnd).map
+          (C04.pair (retained keys vals opt.dedup) wv))) := by
+  unfold scanFromTo
+  rw [C04_scanFrom keys vals opt t hb hc]
+  unfold Spec.scanFromTo
+  rw [List.takeWhile_map]
+  congr 4
+  funext e
+  exact C04.bound_eq stop inclEnd e.1
+
 /-! ### non-vacuity -/
 
 /-- on the example trie of C03 (Complete, record 1 de-duplicated): from "ab" (a dropped key) the
@@ -135,5 +228,37 @@ example : ∃ t, build C03.exKeys (some C03.exVals) C03.exOpt = .ok t ∧ C03.ex
       decide +kernel)
   | .error e => rw [hb] at h; cases h
 
+/-- by the theorems, on the same trie: five `next()` calls after `NewIter("ab", inclusive)` with
+    values yield the three retained entries above the dropped key "ab", then `(nil, nil)` twice;
+    `ScanFromTo("a" exclusive, "b\xff" inclusive)` without values passes two keys to the callback;
+    `ScanFrom("")` with a callback that stops at the first item passes one -/
+example : ∃ t, build C03.exKeys (some C03.exVals) C03.exOpt = .ok t ∧
+    (∃ s, newIterFrom t.view [0x61, 0x62] true = .ok s ∧
+      iterTake t.view true 5 s = .ok
+        [(some [0x61, 0x80, 0x01], some [2]), (some [0x62, 0xff], some [2, 0]),
+         (some [0xf0], some [3]), (none, none), (none, none)]) ∧
+    scanFromTo t.view [0x61] false [0x62, 0xff] true false none =
+      .ok [([0x61, 0x80, 0x01], none), ([0x62, 0xff], none)] ∧
+    scanFrom t.view [] true true (fun _ => true) (some 1) = .ok [([0x61], some [1])] := by
+  have h : (build C03.exKeys (some C03.exVals) C03.exOpt).toBool = true := by decide +kernel
+  match hb : build C03.exKeys (some C03.exVals) C03.exOpt with
+  | .ok t =>
+    have hc : C03.exOpt.complete = true := by decide
+    refine ⟨t, rfl, ?_, ?_, ?_⟩
+    · obtain ⟨s, hs, htake⟩ := C04_iter _ _ _ t hb hc [0x61, 0x62] true true
+      refine ⟨s, hs, ?_⟩
+      rw [htake 5]
+      refine congrArg Except.ok ?_
+      decide +kernel
+    · rw [C04_scanFromTo _ _ _ t hb hc]
+      refine congrArg Except.ok ?_
+      decide +kernel
+    · rw [C04_scanFrom _ _ _ t hb hc]
+      refine congrArg Except.ok ?_
+      decide +kernel
+  | .error e => rw [hb] at h; cases h
+
 #print axioms C04_getGEPath
 #print axioms C04_iter
+#print axioms C04_scanFrom
+#print axioms C04_scanFromTo
